@@ -559,7 +559,7 @@ def register_ctors(Rg):
         if r is None:
             return True
         q = xyz(v["result"], r)
-        return z3.And(*[z3.simplify(q[k] - c0[k], som=True) == 0 for k in range(3)])
+        return z3.And(*[z3.simplify(name_root_as_the_code_does(E, r, q[k] - c0[k]), som=True) == 0 for k in range(3)])
 
     def offsets_scaled(E, v, o):
         """scaling multiplies root-relative offsets per axis (either centre)"""
